@@ -318,13 +318,27 @@ Section PROMRW.
   Definition calls_prw (body : list pseries) : list call := prw_body body 0%N.
 End PROMRW.
 
+(* ---------------------------------------------------------------- the clock *)
+(* time.Now(): the decoder reads the clock once per entry; ck_nows are the readings (UnixNano) in the order they are taken,
+   ck_lo / ck_hi the clock just before the parser was started and just after its channel was closed. An entry without a
+   timestamp of its own (0) is stamped with the reading taken for it. *)
+Record clock := CK { ck_lo : Z; ck_hi : Z; ck_nows : list Z }.
+Fixpoint clocked {A} (nows : list Z) (l : list A) : list (Z * A) :=
+  match l with
+  | [] => []
+  | x :: r => (hd 0 nows, x) :: clocked (tl nows) r
+  end.
+Definition clock_okb (ck : clock) : bool := forallb (fun t => (ck_lo ck <=? t) && (t <=? ck_hi ck)) (ck_nows ck).
+
 (* ---------------------------------------------------------------- Influx line protocol: influxUnmarshal.go *)
 Inductive fval := FNum (bits : N)      (* int64 or float64 field, as the bits of float64(v) *)
                 | FUint (bits : N)     (* unsigned field *)
                 | FStr (s : string) | FBool
                 (* on "message" lines, where a field is rendered as text and not stored as a number: *)
                 | FIntT (z : Z) | FUintT (n : N) | FBoolT (b : bool).
-Record iline := IL { il_meas : string; il_tags : labels; il_fields : list (string * fval); il_ts : Z }.
+(* il_ts: the timestamp of the line in units of the precision; None: the line has none and the telegraf parser stamps it with
+   timeFunc().Truncate(precision), timeFunc = time.Now *)
+Record iline := IL { il_meas : string; il_tags : labels; il_fields : list (string * fval); il_ts : option Z }.
 
 Definition is_message (f : string * fval) : bool := String.eqb (fst f) "message".
 
@@ -431,9 +445,12 @@ Definition iline_modelled (l : iline) : bool :=
     end
   end.
 
-Definition influx_line_calls (precision : Z) (l : iline) : list call :=
+(* SetTimestamp: ns := v * int64(h.timePrecision); Metric(): h.timeFunc().Truncate(h.timePrecision) when the line had none *)
+Definition influx_ts (precision now : Z) (l : iline) : Z :=
+  match il_ts l with Some t => wrap64 (t * precision) | None => (now / precision) * precision end.
+Definition influx_line_calls (precision now : Z) (l : iline) : list call :=
   let lbls := sanitize_labels (("measurement"%string, il_meas l) :: il_tags l) in
-  let ts := wrap64 (il_ts l * precision) in
+  let ts := influx_ts precision now l in
   match find is_message (il_fields l) with
   | Some (_, v) => [K lbls [ts] [get_message (il_fields l) v] [0%N] [TYPE_LOG]]
   | None =>
@@ -442,7 +459,9 @@ Definition influx_line_calls (precision : Z) (l : iline) : list call :=
                        | _ => []                     (* switch v.(type) { case int64, uint64, float64 ...; default: continue } *)
                        end) (il_fields l)
   end.
-Definition calls_influx (precision : Z) (body : list iline) : list call := flat_map (influx_line_calls precision) body.
+(* one clock reading per line (used by the lines without a timestamp) *)
+Definition calls_influx (precision : Z) (ck : clock) (body : list iline) : list call :=
+  flat_map (fun p => influx_line_calls precision (fst p) (snd p)) (clocked (ck_nows ck) body).
 
 (* ---------------------------------------------------------------- Datadog logs: datadogJsonUnmarshal.go *)
 Record ddlog := DL { dl_tags : labels; dl_source : option string; dl_service : option string; dl_host : option string;
@@ -453,16 +472,6 @@ Definition ddlog_labels (e : ddlog) : labels :=
   dl_tags e ++ filter nonempty_label
     [("ddsource", opt_str (dl_source e)); ("service", opt_str (dl_service e)); ("hostname", opt_str (dl_host e));
      ("source_type", opt_str (dl_stype e)); ("type", "datadog")]%string.
-(* time.Now(): the decoder reads the clock once per entry; ck_nows are the readings (UnixNano) in the order they are taken,
-   ck_lo / ck_hi the clock just before the parser was started and just after its channel was closed. An entry without a
-   timestamp of its own (0) is stamped with the reading taken for it. *)
-Record clock := CK { ck_lo : Z; ck_hi : Z; ck_nows : list Z }.
-Fixpoint clocked {A} (nows : list Z) (l : list A) : list (Z * A) :=
-  match l with
-  | [] => []
-  | x :: r => (hd 0 nows, x) :: clocked (tl nows) r
-  end.
-Definition clock_okb (ck : clock) : bool := forallb (fun t => (ck_lo ck <=? t) && (t <=? ck_hi ck)) (ck_nows ck).
 (*  t := time.Now(); if d.TsMs != 0 { t = time.Unix(d.TsMs/1000, d.TsMs%1000*1000000) }; t.UnixNano() *)
 Definition ddlog_ts (now : Z) (e : ddlog) : Z := if dl_ts e =? 0 then now else wrap64 (dl_ts e * 1000000).
 Definition calls_ddlog (ck : clock) (body : list ddlog) : list call :=
@@ -576,14 +585,14 @@ Definition calls_otlp (body : list oreslog) : list call :=
 (* ---------------------------------------------------------------- the seven parsers *)
 Inductive body :=
 | BLoki (l : list (list lmember)) | BLokiPb (l : list lstream) | BPrw (l : list pseries)
-| BInflux (precision : Z) (l : list iline) | BDDLog (ck : clock) (l : list ddlog) | BDDMet (l : list ddseries)
+| BInflux (precision : Z) (ck : clock) (l : list iline) | BDDLog (ck : clock) (l : list ddlog) | BDDMet (l : list ddseries)
 | BOtlp (l : list oreslog)
 | BCf (ddsource : string) (ck : clock) (l : list cfline) | BEs (ck : clock) (l : list esline).
 
 Definition calls_of (flush_limit : N) (b : body) : list call :=
   match b with
   | BLoki l => calls_loki_json l | BLokiPb l => calls_loki_pb l | BPrw l => calls_prw flush_limit l
-  | BInflux p l => calls_influx p l | BDDLog ck l => calls_ddlog ck l | BDDMet l => calls_ddmet l | BOtlp l => calls_otlp l
+  | BInflux p ck l => calls_influx p ck l | BDDLog ck l => calls_ddlog ck l | BDDMet l => calls_ddmet l | BOtlp l => calls_otlp l
   | BCf src ck l => calls_cf src ck l | BEs ck l => calls_es ck l
   end.
 
@@ -655,9 +664,9 @@ Definition entries_prw (body : list pseries) : list entry :=
                          (ps_samples s)) body.
 (* every numeric field (signed, unsigned, float) is an entry of the series measurement+tags+__name__;
    a "message" line is one log entry *)
-Definition influx_line_entries (precision : Z) (l : iline) : list entry :=
+Definition influx_line_entries (precision now : Z) (l : iline) : list entry :=
   let lbls := sanitize_labels (("measurement"%string, il_meas l) :: il_tags l) in
-  let ts := wrap64 (il_ts l * precision) in
+  let ts := influx_ts precision now l in
   match find is_message (il_fields l) with
   | Some (_, v) => [E lbls ts (get_message (il_fields l) v) 0%N TYPE_LOG]
   | None => flat_map (fun f => match snd f with
@@ -665,7 +674,8 @@ Definition influx_line_entries (precision : Z) (l : iline) : list entry :=
                                | _ => []
                                end) (il_fields l)
   end.
-Definition entries_influx (precision : Z) (body : list iline) : list entry := flat_map (influx_line_entries precision) body.
+Definition entries_influx (precision : Z) (ck : clock) (body : list iline) : list entry :=
+  flat_map (fun p => influx_line_entries precision (fst p) (snd p)) (clocked (ck_nows ck) body).
 (* an entry with a timestamp of its own keeps it; one without is stamped with the clock reading taken for it *)
 Definition entries_ddlog (ck : clock) (body : list ddlog) : list entry :=
   map (fun p => E (ddlog_labels (snd p)) (ddlog_ts (fst p) (snd p)) (dl_msg (snd p)) 0%N TYPE_LOG) (clocked (ck_nows ck) body).
@@ -701,7 +711,7 @@ Definition entries_otlp (body : list oreslog) : list entry :=
 Definition entries_of (b : body) : list entry :=
   match b with
   | BLoki l => entries_loki_json l | BLokiPb l => entries_loki_pb l | BPrw l => entries_prw l
-  | BInflux p l => entries_influx p l | BDDLog ck l => entries_ddlog ck l | BDDMet l => entries_ddmet l | BOtlp l => entries_otlp l
+  | BInflux p ck l => entries_influx p ck l | BDDLog ck l => entries_ddlog ck l | BDDMet l => entries_ddmet l | BOtlp l => entries_otlp l
   | BCf src ck l => entries_cf src ck l | BEs ck l => entries_es ck l
   end.
 
@@ -828,17 +838,17 @@ Fixpoint grouped_perm_eqb (groups : list nat) (a b : list row) : bool :=
   | n :: r => perm_eqb row_eqb (firstn n a) (firstn n b) && Nat.eqb (List.length (firstn n a)) n &&
               grouped_perm_eqb r (skipn n a) (skipn n b)
   end.
-Definition is_influx (b : body) : bool := match b with BInflux _ _ => true | _ => false end.
-Definition body_modelled (b : body) : bool := match b with BInflux _ l => forallb iline_modelled l | _ => true end.
+Definition is_influx (b : body) : bool := match b with BInflux _ _ _ => true | _ => false end.
+Definition body_modelled (b : body) : bool := match b with BInflux _ _ l => forallb iline_modelled l | _ => true end.
 
 Definition model_groups (b : body) : list nat :=
-  match b with BInflux p l => map (fun ln => List.length (influx_line_calls p ln)) l | _ => [] end.
+  match b with BInflux p _ l => map (fun ln => List.length (influx_line_calls p 0 ln)) l | _ => [] end.
 Definition spec_groups (b : body) : list nat :=
-  match b with BInflux p l => map (fun ln => List.length (influx_line_entries p ln)) l | _ => [] end.
+  match b with BInflux p _ l => map (fun ln => List.length (influx_line_entries p 0 ln)) l | _ => [] end.
 
 (* the clock of a body whose decoder reads it *)
 Definition body_clock (b : body) : option clock :=
-  match b with BDDLog ck _ | BCf _ ck _ | BEs ck _ => Some ck | _ => None end.
+  match b with BInflux _ ck _ | BDDLog ck _ | BCf _ ck _ | BEs ck _ => Some ck | _ => None end.
 Definition body_clock_ok (b : body) : bool := match body_clock b with Some ck => clock_okb ck | None => true end.
 
 Definition rows_only (c : case) : bool := match c_cache c with CShared => true | _ => is_influx (c_body c) end.
